@@ -226,7 +226,7 @@ func TestC16_EnumEveryCharacter(t *testing.T) {
 	rec.Exhaustive = true
 	rec.DupFree = true
 	defer finish(t, rec)
-	rec.Bounds = "for every character r in U+0001..U+FFFE (surrogates excluded): symbols {<r, r=, rrr, <r-->>==} registered in that order, 9 probes with r and with its neighbour code point"
+	rec.Bounds = "for every character r in U+0001..U+FFFE (surrogates excluded): symbols {<r, r=, rrr, <r-->>==} registered in that order, 13 probes with r, with its neighbour code point and with the characters U+10000+r / U+20000+r in its place"
 	parallelFor(0xfffe, func(i int) {
 		r := rune(i + 1)
 		if (r >= 0xd800 && r <= 0xdfff) || r == '<' || r == '=' || r == '-' || r == '>' || r == 'x' {
@@ -240,13 +240,54 @@ func TestC16_EnumEveryCharacter(t *testing.T) {
 			n = 5
 		}
 		R, N := string(r), string(n)
+		// characters beyond the BMP whose low 16 bits are r: they are other characters
+		A1, A2 := string(0x10000+r), string(0x20000+r)
 		c := c16Case{Symbols: []string{"<" + R, R + "=", R + R + R, "<" + R + "-->>=="},
-			Probes: []string{"<" + R + "x", R + "=x", "<" + N + "x", N + "=", R + "x", R + R + R + R, R + R + "x", "<" + R + "-->>==x", "<" + R + "-->>=x"}}
+			Probes: []string{"<" + R + "x", R + "=x", "<" + N + "x", N + "=", R + "x", R + R + R + R, R + R + "x", "<" + R + "-->>==x", "<" + R + "-->>=x",
+				"<" + A1 + "x", A1 + "=", A2 + "=x", R + A1 + R}}
 		rec.Case(R, true, func() interface{} { return c })
 		if f := checkC16(c); f != nil {
 			rec.Fail(f, c)
 		}
 	})
+}
+
+// A symbol registered again carries the type of its latest registration - also when that type is the plain Symbol
+// type and the symbol a single character, and with other symbols sharing its first character.
+func TestC16_EnumReRegistration(t *testing.T) {
+	rec := evid.New("C16", "TestC16_EnumReRegistration", "C16", c16Rule)
+	rec.Exhaustive = true
+	rec.DupFree = true
+	defer finish(t, rec)
+	types := []int{tokenizers.Symbol, tokenizers.Keyword, tokenizers.Special, 100, tokenizers.Word}
+	syms := []string{"<", ";", "é", "≤", "<=", "<=>", "≤≥"}
+	rec.Bounds = fmt.Sprintf("%d symbols x %d x %d ordered type pairs x {alone, with a longer symbol registered before, in between, after} x 2 symbol states", len(syms), len(types), len(types))
+	for _, sym := range syms {
+		for _, t1 := range types {
+			for _, t2 := range types {
+				for arrangement := 0; arrangement < 4; arrangement++ {
+					for _, state := range []string{"", "expression"} {
+						longer := sym + "~"
+						c := c16Case{State: state, Probes: []string{sym + "x", sym, longer + "x", "x" + sym}}
+						switch arrangement {
+						case 0:
+							c.Symbols, c.Types = []string{sym, sym}, []int{t1, t2}
+						case 1:
+							c.Symbols, c.Types = []string{longer, sym, sym}, []int{101, t1, t2}
+						case 2:
+							c.Symbols, c.Types = []string{sym, longer, sym}, []int{t1, 101, t2}
+						default:
+							c.Symbols, c.Types = []string{sym, sym, longer}, []int{t1, t2, 101}
+						}
+						rec.Case(jsonStr(c), true, func() interface{} { return c }, "state:"+state)
+						if f := checkC16(c); f != nil {
+							rec.Fail(f, c)
+						}
+					}
+				}
+			}
+		}
+	}
 }
 
 func TestC16_Rapid(t *testing.T) {
@@ -293,7 +334,8 @@ func TestC16_Rapid(t *testing.T) {
 				// extend an existing symbol so that shared prefixes are common
 				s = syms[rapid.IntRange(0, len(syms)-1).Draw(rt, "base")] + genStr(rt, 2, false, "ext")
 			}
-			if !seen[s] {
+			if !seen[s] || rapid.IntRange(0, 5).Draw(rt, "again") == 0 {
+				// now and then a symbol is registered again (with its next token type): the latest registration counts
 				seen[s] = true
 				syms = append(syms, s)
 			}
